@@ -28,6 +28,8 @@ pub struct RunOut {
     pub timed_out: bool,
     /// number of -v flags the run was given (see `derived_verbosity`)
     pub verbosity: u8,
+    /// number of CPUs the process was confined to (0 = not confined)
+    pub cpus: u8,
 }
 impl RunOut {
     pub fn ok(&self) -> bool {
@@ -43,11 +45,12 @@ impl RunOut {
             lines[lines.len().saturating_sub(4)..].join(" | ")
         };
         format!(
-            "exit={:?} signal={:?} timed_out={} verbosity={} stderr=[{}] stdout_tail=[{}]",
+            "exit={:?} signal={:?} timed_out={} verbosity={} cpus={} stderr=[{}] stdout_tail=[{}]",
             self.code,
             self.signal,
             self.timed_out,
             self.verbosity,
+            self.cpus,
             tail(&self.stderr),
             tail(&self.stdout)
         )
@@ -135,6 +138,38 @@ pub fn run_bita(cwd: &Path, spec: &RunSpec) -> RunOut {
             }
         }
     }
+    // the number of CPUs the process sees (default --buffered-chunks, tokio worker threads) is an environment dimension:
+    // 1 clone/compress run in 8 is confined to one CPU, 1 in 8 to three
+    let mut cpus = 0u8;
+    if matches!(args.first().map(|s| s.as_str()), Some("clone") | Some("compress")) && std::env::var("BVERIF_NO_VERBOSITY").is_err() {
+        let salt = crate::engine::case_salt().to_le_bytes();
+        let mut parts: Vec<&[u8]> = spec.args.iter().filter(|a| !a.starts_with("http://")).map(|a| a.as_bytes()).collect();
+        parts.push(&salt);
+        parts.push(b"cpus");
+        cpus = match crate::engine::blake2_64(&parts) % 8 {
+            0 => 1,
+            1 => 3,
+            _ => 0,
+        };
+        if cpus > 0 {
+            use std::os::unix::process::CommandExt;
+            let n = cpus as usize;
+            // which CPUs is irrelevant to bita (it sees their number); spread the confined runs of the 16 workers
+            let total = std::thread::available_parallelism().map(|x| x.get()).unwrap_or(1);
+            let base = if total > n { std::process::id() as usize % (total - n + 1) } else { 0 };
+            unsafe {
+                cmd.pre_exec(move || {
+                    let mut set: libc::cpu_set_t = std::mem::zeroed();
+                    for c in base..base + n {
+                        libc::CPU_SET(c, &mut set);
+                    }
+                    // best effort: if the CPUs are not available to this process the run simply stays unconfined
+                    libc::sched_setaffinity(0, std::mem::size_of::<libc::cpu_set_t>(), &set);
+                    Ok(())
+                });
+            }
+        }
+    }
     cmd.args(&args).current_dir(cwd);
     cmd.env("RUST_BACKTRACE", "0");
     cmd.env_remove("LD_PRELOAD");
@@ -190,7 +225,7 @@ pub fn run_bita(cwd: &Path, spec: &RunSpec) -> RunOut {
     let stdout = t_out.join().unwrap_or_default();
     let stderr = t_err.join().unwrap_or_default();
     use std::os::unix::process::ExitStatusExt;
-    RunOut { code: status.code(), signal: status.signal(), stdout, stderr, timed_out, verbosity }
+    RunOut { code: status.code(), signal: status.signal(), stdout, stderr, timed_out, verbosity, cpus }
 }
 
 // ---------------------------------------------------------------------------------------
